@@ -11,11 +11,20 @@ Driver for C09 (collections). One output line per input line.
   `transfer to= id=` · `send to= id= payload=` + witness `recv=<0|1>` · `approve sp= id= exp=<-|n|h<N>|t<N>>` ·
   `revoke sp= id=` · `approve_all op= exp=` · `revoke_all op=` · `mint id= owner= uri=<n|-> ext=<n>` · `burn id=` ·
   `extension` · `uci desc=<id:len|-> image=<id|-> ext=<-|none|id> ec=<-|0|1> roy=<-|none|pay:share> creator=<a|->`
-  + witnesses `iv= ev=` · `ustt t=<n|->` · `freeze` · `own_transfer to= exp=` · `own_accept` · `own_renounce` ·
+  + witnesses `iv= ev=` and `racc=<0|1>` (did the royalty rules — C10's — accept the requested royalty) ·
+  `ustt t=<n|->` · `freeze` · `own_transfer to= exp=` · `own_accept` · `own_renounce` ·
   `freeze_meta` · `utm id= uri=<n|->` · `enable`
-* `migrate`  (chain-level migrate to the sg721-updatable code)
+* `raw v=<variant> k=<n> s= funds=`  a message variant the protocol has no name for (found in the crate's JSON schema
+  at run time): the model knows no such message: the state is unchanged; output `raw <state> res=<ok|err>` with the
+  outcome of the call behind ` ## `
+* `migrate to=<base|nt|updatable|onchain>`  (chain-level migrate to that collection's code; `to` defaults to updatable)
+* `setver v=<a.b.c>`  (environment: the stored cw2 version)
 
-Output: `ok <state>` / `err <state>` (state after the line; `-` when no collection exists), see `renderState`.
+Output: `ok <primary> ## <drift>` / `err …` (state after the line; `-` when no collection exists), see `renderState`.
+`primary` = what C09 constrains + the mechanism state of the theorems (kind, ownership, freeze flags, creator-editable
+info, count, per token id/owner/uri, metadata flags). Behind ` ## ` (never decides agreement): stored version,
+royalty timestamp, start-trading time, token extensions, approvals, operators, and the model's own verdict on the
+royalty rules for this line.
 -/
 open LP LP.Proto LP.Sg721
 
@@ -65,26 +74,36 @@ def sortBy {α : Type} (key : α → Nat) (l : List α) : List α := l.foldl (fu
 def joinOr (sep : String) (l : List String) : String := if l.isEmpty then "-" else String.intercalate sep l
 
 def renderToken (t : Token) : String :=
-  let aps := joinOr "+" (t.approvals.map fun a => s!"{a.spender}@{expStr a.expires}")
-  s!"{t.id}/{t.owner}/{renderOpt t.uri}/{t.ext}/{aps}"
+  s!"{t.id}/{t.owner}/{renderOpt t.uri}"
+
+/-- outside the projection: extension tag and approvals (sorted by spender) -/
+def renderTokenX (t : Token) : String :=
+  let aps := joinOr "+" ((sortBy (fun (a : Approval) => a.spender) t.approvals).map fun a => s!"{a.spender}@{expStr a.expires}")
+  s!"{t.id}/{t.ext}/{aps}"
 
 def renderOptBool : Option Bool → String
   | none => "-" | some true => "1" | some false => "0"
 
 def b01 (b : Bool) : String := if b then "1" else "0"
 
-def renderState (s : State) : String :=
+def verStr (v : Semver.Version) : String := s!"{v.major}.{v.minor}.{v.patch}"
+
+/-- `racc`: the model's own reading of the royalty rules for the line just executed (`-` when not applicable) -/
+def renderState (s : State) (racc : String := "-") : String :=
   let o := s.ownership
   let own := s!"{renderOpt o.owner}/{renderOpt o.pending}/{match o.pendingExpiry with | some e => expStr e | none => "-"}"
   let i := s.info
   let roy := match i.royalty with | some r => s!"{r.payment}:{r.share}" | none => "-"
   let ext := match i.externalLink with | some u => toString u.id | none => "-"
-  let toks := joinOr ";" ((sortBy (·.id) s.tokens).map renderToken)
+  let sorted := sortBy (·.id) s.tokens
+  let toks := joinOr ";" (sorted.map renderToken)
+  let toksX := joinOr ";" (sorted.map renderTokenX)
   let ops := joinOr "," ((sortBy (fun (x : Operator) => x.owner * 1000000 + x.operator) s.operators).map
     fun x => s!"{x.owner}>{x.operator}@{expStr x.expires}")
-  s!"k={kindStr s.kind} own={own} fz={b01 s.frozenInfo} rua={s.royaltyUpdatedAt} cr={i.creator} " ++
+  s!"k={kindStr s.kind} own={own} fz={b01 s.frozenInfo} cr={i.creator} " ++
   s!"desc={i.description.id}:{i.description.len} img={i.image.id} ext={ext} ec={renderOptBool i.explicitContent} " ++
-  s!"stt={renderOpt i.startTradingTime} roy={roy} n={s.count} toks={toks} ops={ops} fm={b01 s.frozenMeta} ue={b01 s.updEnabled}"
+  s!"roy={roy} n={s.count} toks={toks} fm={b01 s.frozenMeta} ue={b01 s.updEnabled}" ++
+  s!" ## ver={verStr s.ver} rua={s.royaltyUpdatedAt} stt={renderOpt i.startTradingTime} tx={toksX} ops={ops} racc={racc}"
 
 def optBoolKv (ws : List String) (key : String) : Option (Option Bool) :=
   match kv ws key with
@@ -139,7 +158,7 @@ def parseMsg (ws : List String) : Option ExecMsg :=
   | some "mint" => do pure (.mint (← natKv ws "id") (← natKv ws "owner") (← optNatKv ws "uri") (← natKv ws "ext"))
   | some "burn" => do pure (.burn (← natKv ws "id"))
   | some "extension" => some .extension
-  | some "uci" => (parseUpdate ws).map .updateCollectionInfo
+  | some "uci" => do pure (.updateCollectionInfo (← parseUpdate ws) (← boolKv ws "racc"))
   | some "ustt" => do pure (.updateStartTradingTime (← optNatKv ws "t"))
   | some "freeze" => some .freezeCollectionInfo
   | some "own_transfer" => do pure (.updateOwnership (.transfer (← natKv ws "to") (← (kv ws "exp").bind parseOptExp)))
@@ -150,8 +169,30 @@ def parseMsg (ws : List String) : Option ExecMsg :=
   | some "enable" => some .enableUpdatable
   | _ => none
 
-def answer (ok : Bool) (st : Option State) : String :=
-  (if ok then "ok " else "err ") ++ (match st with | some s => renderState s | none => "-")
+def answer (ok : Bool) (st : Option State) (racc : String := "-") : String :=
+  (if ok then "ok " else "err ") ++ (match st with | some s => renderState s racc | none => "-")
+
+def parseVer (str : String) : Option Semver.Version :=
+  match str.splitOn "." with
+  | [a, b, c] => do pure ⟨← nat? a, ← nat? b, ← nat? c⟩
+  | _ => none
+
+/-- the model's own verdict on the royalty rules for an `UpdateCollectionInfo` that reaches the royalty block -/
+def raccOf (s : State) (b : Block) (sender : Addr) (m : ExecMsg) : String :=
+  match m with
+  | .updateCollectionInfo u _ =>
+    match u.royalty with
+    | some (some r) => if uciOtherChecksOk s sender u then b01 (royaltyRulesOk s b r) else "-"
+    | _ => "-"
+  | _ => "-"
+
+def runOp (d : D) (op : Op) (racc : String := "-") : D × String :=
+  match d.st with
+  | none => (d, answer false none)
+  | some s =>
+    match step s op with
+    | .ok s' => ({ d with st := some s' }, answer true (some s') racc)
+    | .error _ => (d, answer false d.st racc)
 
 def c09Step (d : D) (line : String) : D × String :=
   let ws := words line
@@ -177,21 +218,22 @@ def c09Step (d : D) (line : String) : D × String :=
     | some (.error _) => (d, answer false d.st)
     | none => (d, "bad-op")
   | some "migrate" =>
-    match d.st with
-    | none => (d, answer false none)
-    | some s =>
-      match step s .migrateToUpdatable with
-      | .ok s' => ({ d with st := some s' }, answer true (some s'))
-      | .error _ => (d, answer false d.st)
+    match ((kv ws "to").getD "updatable" |> parseKind) with
+    | some k => runOp d (.migrate k d.blk.time)
+    | none => (d, "bad-op")
+  | some "setver" =>
+    match (kv ws "v").bind parseVer with
+    | some v => runOp d (.setVersion v)
+    | none => (d, "bad-op")
+  | some "raw" =>
+    -- a message variant unknown to the model: it changes nothing the property constrains. Whether the call itself
+    -- succeeds is outside the projection (`res=` behind ` ## `): a new harmless message is DRIFT, not a failure.
+    (d, "raw " ++ (match d.st with | some s => renderState s ++ " res=err" | none => "-"))
   | _ =>
     match parseMsg ws, natKv ws "s", pairListKv ws "funds" with
     | some m, some sender, some fu =>
-      match d.st with
-      | none => (d, answer false none)
-      | some s =>
-        match step s (.exec ⟨d.blk, sender, coinsOf fu, m⟩) with
-        | .ok s' => ({ d with st := some s' }, answer true (some s'))
-        | .error _ => (d, answer false d.st)
+      let racc := match d.st with | some s => raccOf s d.blk sender m | none => "-"
+      runOp d (.exec ⟨d.blk, sender, coinsOf fu, m⟩) racc
     | _, _, _ => (d, "bad-op")
 
 def main : IO Unit := runDriverRaw ({} : D) c09Step
